@@ -3,6 +3,7 @@ from core import ASSUME_RUSTC, ASSUME_PATHS
 from flow import Flows
 from guard import Guards, check_refusal
 from panic import norm as panic_norm
+from mir import loc_str
 
 LEVEL = "other"
 EXPLANATION = (
@@ -11,7 +12,7 @@ EXPLANATION = (
     "(refuse directed) and weakly_/strongly_connected_components (refuse undirected), every block that can produce a non-error "
     "return value is reachable from the entry only through the continue edge of a guard -- a test of specs.directed, or the "
     "Ok/Continue outcome of a call (on the same graph) to a crate function that itself refuses; decided by deleting the edge and "
-    "testing CFG reachability, recursively through callees.  R-C10-8: the position-keyed adjacency sets a search may expand through get the same updates as the name-keyed ones.  NOT decided: that the returned sets are the equivalence classes of "
+    "testing CFG reachability, recursively through callees.  R-C10-8: the position-keyed adjacency sets a search may expand through get the same updates as the name-keyed ones.  R-C10-9: a visited structure assigned as a whole inside a loop derives from its own previous value.  NOT decided: that the returned sets are the equivalence classes of "
     "the reachability relation, BFS order/completeness, partition sizes (run-time graph properties)."
 )
 TRUSTED = ["rustc MIR construction", "CFG paths over-approximate executions"]
@@ -88,36 +89,7 @@ def run(ctx):
         ok = bool(cal & {"get_all_node_names", "get_all_nodes"}) and not (cal & {"get_successors_map", "get_predecessors_map", "keys", "get_all_edges"})
         ctx.require(ok, "R-C10-2", "outer-loop|" + b.short, "%s starts a search from every node of the node store" % sfx.split("::")[-1], "%s enumerates its start nodes from %s: a node without an entry there (e.g. an isolated node) ends up in no component" % (sfx.split("::")[-1], sorted(cal)), loc_str(t.span))
     # ------------------------------------------------------------------ R-C10-7
-    # "breadth_first_search(x) lists every node reachable from x": on a directed graph reachability follows the edges'
-    # direction, so the search expands a node through its successors (all neighbours only when undirected)
-    ctx.rule("R-C10-7", "breadth_first_search expands a node through get_successors_or_neighbors (successors on directed graphs), never through predecessors or the undirected neighbour query")
-    from props.c01 import controlling_atoms as _ca
-
-    bfs = prog.one("query::Graph::breadth_first_search")
-    own7 = [bfs] + list(prog.closures_of(bfs.path))
-    cal7 = set()
-    und_ok7 = set()
-    for b7 in own7:
-        f7 = flows.of(b7)
-        for t7 in b7.calls():
-            tp7 = t7.callee.target_path(prog) if t7.callee else None
-            if tp7:
-                nm7 = prog.bodies[tp7].short.split("::")[-1]
-                if nm7 == "get_neighbor_nodes" and any(isinstance(te, tuple) and te[0] == "place" and te[1].endswith("specs.directed") and v is False for (te, v, a) in _ca(f7, t7.bb)):
-                    und_ok7.add(nm7)  # explicitly the undirected arm
-                    continue
-                if nm7 in ("get_successor_nodes", "get_successor_nodes_by_index") and any(isinstance(te, tuple) and te[0] == "place" and te[1].endswith("specs.directed") and v is True for (te, v, a) in _ca(f7, t7.bb)):
-                    nm7 = "get_successors_or_neighbors"
-                cal7.add(nm7)
-    from graphrules import field_of as _fo
-
-    fs7 = set()
-    for (bp7, nd7) in flows.slice(bfs.path, [("L", 0)], up=False, down="clos", data_only=True):
-        if nd7[0] == "SRC":
-            fs7.add(_fo(("P", nd7[1], nd7[2])))
-    good7 = cal7 & {"get_successors_or_neighbors", "get_successors_or_neighbors_by_index"}
-    bad7 = sorted((cal7 & {"get_neighbor_nodes", "get_predecessor_nodes", "get_predecessor_nodes_by_index", "get_predecessor_node_names", "get_predecessors_map", "get_in_edges_for_node", "get_edges_for_node"}) | (fs7 & {"predecessors", "predecessors_map", "predecessors_vec"}))
-    ctx.require(bool(good7) and not bad7, "R-C10-7", "expansion", "breadth_first_search expands through %s" % sorted(good7), "breadth_first_search expands a node through %s: on a directed graph it then also walks edges backwards and reports the weakly connected component instead of the nodes reachable from x" % (bad7 or sorted(cal7)), loc_str(bfs.span))
+    bfs_expansion(ctx, prog, flows, "R-C10-7", "on a directed graph it then also walks edges backwards and reports the weakly connected component instead of the nodes reachable from x")
     # ------------------------------------------------------------------ R-C10-6
     from graphrules import adjacency_entry_targets_agree
 
@@ -198,6 +170,8 @@ def run(ctx):
     ctx.floor("R-C10-4", "emissions", n_em, 1)
     ctx.floor("R-C10-4", "visited_structures", len(guards), 1)
 
+    visited_sets_only_grow(ctx, prog, flows)
+
     # ------------------------------------------------------------------ R-C10-3
     from graphrules import adjacency_entries_only_for_new_nodes
 
@@ -206,3 +180,95 @@ def run(ctx):
 
     adjacency_set_updates_agree(ctx, prog, flows, "R-C10-8", "a search that expands a node through the position-keyed sets then misses an undirected edge whose endpoints were given in descending order, while the component algorithms that read the name-keyed maps still see it: the same graph gets different components / reachable sets from different entry points")
     ctx.note("bfs_equal_size_partitions and breadth_first_search have no error channel; they cannot refuse and are handled under C20")
+
+
+def visited_sets_only_grow(ctx, prog, flows):
+    """R-C10-9.  Every component enumeration keeps a structure of the nodes it has already assigned and asks it
+    (`contains`) before it starts a new search.  "The components are pairwise disjoint" needs that structure to be
+    MONOTONE over the enumeration loop: inside a loop it may be extended in place (insert / extend) or replaced by a value
+    computed from itself (`seen = seen.union(&found).cloned().collect()`), never by a value that forgets it
+    (`seen = found.clone()`: a node of an earlier component that comes later in the node order is then searched and
+    emitted again)."""
+    from hashord import natural_loop_blocks
+
+    ctx.rule("R-C10-9", "inside the enumeration loops a visited structure is only extended: a whole assignment to it derives from its own previous value")
+    n = 0
+    for p in sorted(prog.bodies):
+        b = prog.bodies[p]
+        root = b
+        while root.kind == "closure":
+            root = prog.bodies[root.item["parent"]]
+        if not root.short.startswith("algorithms::components::") and not root.short.endswith("breadth_first_search"):
+            continue
+        fl = flows.of(b)
+        visited = set()
+        for t in b.calls():
+            if t.callee and t.callee.short.split("::")[-1] in ("contains", "contains_key") and t.args and t.args[0].place is not None:
+                for o in fl._operand_pts(t.args[0]):
+                    if o[0] == "L" and b.local_name(o[1]) and any(k in b.local_ty(o[1]) for k in ("HashSet<", "HashMap<", "BTreeSet<", "BTreeMap<")) and not b.local_ty(o[1]).startswith("&"):
+                        visited.add(o[1])
+        if not visited:
+            continue
+        loops = []
+        for t in b.calls():
+            if t.callee and t.callee.short == "std::iter::Iterator::next":
+                lb = natural_loop_blocks(b, t.bb)
+                if len(lb) > 1:
+                    loops.append(lb)
+        for blk in b.normal_blocks():
+            for s_ in b.succ(blk.i):
+                if b.dominates(s_, blk.i):
+                    lb = natural_loop_blocks(b, s_)
+                    if len(lb) > 1 and lb not in loops:
+                        loops.append(lb)
+        for l in sorted(visited):
+            for (bb, d) in b.assigns_to(l):
+                if getattr(d, "k", None) != "call" and d.lhs.proj:
+                    continue
+                if not any(bb in lb for lb in loops):
+                    continue
+                n += 1
+                ops = d.args if getattr(d, "k", None) == "call" else ([_o for _o in d.rv.ops] if d.rv is not None else [])
+                reads = set()
+                for o in ops:
+                    reads |= set(fl._op_reads(o))
+                if getattr(d, "k", None) != "call" and d.rv.place is not None:
+                    reads |= set(fl._place_reads(d.rv.place))
+                sl = fl.slice_local(reads, data_only=True)
+                ctx.require(("L", l) in sl, "R-C10-9", "visited|%s|%s" % (b.short, b.local_name(l)), "`%s` is replaced in %s by a value computed from itself" % (b.local_name(l), b.short.split("::")[-1]),
+                            "in %s the visited structure `%s` is replaced inside the loop by a value that does not derive from its previous contents: nodes assigned earlier are forgotten, a later start node that belongs to an earlier component is searched again and that component is emitted twice (the components are no longer disjoint, their sizes add up to more than the node count)" % (b.short, b.local_name(l)), loc_str(d.span))
+    ctx.note("R-C10-9 found %d whole assignments to visited structures inside loops" % n)
+
+
+def bfs_expansion(ctx, prog, flows, rid, consequence):
+    """shared by C10 (reachable set) and C02 (breadth_first_search agrees with the successor queries)"""
+    # "breadth_first_search(x) lists every node reachable from x": on a directed graph reachability follows the edges'
+    # direction, so the search expands a node through its successors (all neighbours only when undirected)
+    ctx.rule(rid, "breadth_first_search expands a node through get_successors_or_neighbors (successors on directed graphs), never through predecessors or the undirected neighbour query")
+    from props.c01 import controlling_atoms as _ca
+
+    bfs = prog.one("query::Graph::breadth_first_search")
+    own7 = [bfs] + list(prog.closures_of(bfs.path))
+    cal7 = set()
+    und_ok7 = set()
+    for b7 in own7:
+        f7 = flows.of(b7)
+        for t7 in b7.calls():
+            tp7 = t7.callee.target_path(prog) if t7.callee else None
+            if tp7:
+                nm7 = prog.bodies[tp7].short.split("::")[-1]
+                if nm7 == "get_neighbor_nodes" and any(isinstance(te, tuple) and te[0] == "place" and te[1].endswith("specs.directed") and v is False for (te, v, a) in _ca(f7, t7.bb)):
+                    und_ok7.add(nm7)  # explicitly the undirected arm
+                    continue
+                if nm7 in ("get_successor_nodes", "get_successor_nodes_by_index") and any(isinstance(te, tuple) and te[0] == "place" and te[1].endswith("specs.directed") and v is True for (te, v, a) in _ca(f7, t7.bb)):
+                    nm7 = "get_successors_or_neighbors"
+                cal7.add(nm7)
+    from graphrules import field_of as _fo
+
+    fs7 = set()
+    for (bp7, nd7) in flows.slice(bfs.path, [("L", 0)], up=False, down="clos", data_only=True):
+        if nd7[0] == "SRC":
+            fs7.add(_fo(("P", nd7[1], nd7[2])))
+    good7 = cal7 & {"get_successors_or_neighbors", "get_successors_or_neighbors_by_index"}
+    bad7 = sorted((cal7 & {"get_neighbor_nodes", "get_predecessor_nodes", "get_predecessor_nodes_by_index", "get_predecessor_node_names", "get_predecessors_map", "get_in_edges_for_node", "get_edges_for_node"}) | (fs7 & {"predecessors", "predecessors_map", "predecessors_vec"}))
+    ctx.require(bool(good7) and not bad7, rid, "expansion", "breadth_first_search expands through %s" % sorted(good7), "breadth_first_search expands a node through %s: " % (bad7 or sorted(cal7)) + consequence, loc_str(bfs.span))
